@@ -504,6 +504,20 @@ def r10(ctx, rep):
                   "the programs it rejected are now accepted or fail with another message", file=sites[0]["file"] if sites else None, line=sites[0]["l"] if sites else None)
 
 
+def r11(ctx, rep):
+    rep.rule("C10.R11", "name resolution retries with shorter paths only as far as the module path it prepended itself: the qualifier the user wrote is never stripped", floor=1)
+    syn = ctx.syn
+    f = syn.fn("Resolver::resolve_ident", crate="prqlc")
+    pre = [show(n["a"][0], maxdepth=6) for n in walk(f["body"]) if n.get("k") == "mcall" and n["m"] == "prepend" and n["a"]]
+    pre = [re.sub(r"\.clone\(\)$", "", x) for x in pre]
+    loops = [n for n in walk(f["body"]) if n.get("k") == "for" and any(x.get("k") == "mcall" and x["m"] == "pop_front" for x in walk(n["body"]))]
+    bounds = [show(n.get("e", n.get("iter")), maxdepth=8) for n in loops]
+    want = [f"0..{x}.len()" for x in pre] + [f"(0..{x}.len())" for x in pre]
+    rep.check(len(pre) == 1 and len(loops) == 1 and bounds[0].replace(" ", "") in [w.replace(" ", "") for w in want], "strip-only-prepended",
+              f"resolve_ident prepends `{pre}` and strips one leading segment per retry in a loop over `{bounds}`: the bound must be the length of what was prepended. With the length of the whole "
+              "path the user's own qualifier is stripped too: `select {t.b}` after `select {a} | join u (==a)` resolves to `u.b`", file=f["file"], line=f["l"], fn=f["path"])
+
+
 def run(ctx, rep):
-    for r in (r1, r2, r3, r4, r5, r6, r7, r8, r9, r10):
+    for r in (r1, r2, r3, r4, r5, r6, r7, r8, r9, r10, r11):
         rep.guard(r, ctx)
